@@ -193,7 +193,7 @@ Qed.
 
 
 (* ---------------------------------------------------------------------------------------------- *)
-(* derivative orders >= 2: the recursive bspline_deriv of src/core/bspline.cpp (right-continuous, plain division) *)
+(* derivative orders >= 2: the recursive bspline_deriv / bspline_deriv_left of src/core/bspline.cpp (plain division) *)
 Section Recursive.
 Hypothesis Hstrict : forall i j, 0 <= i -> i < j -> j < nknots -> lt (kn i) (kn j).
 Variable x : K.
@@ -228,6 +228,37 @@ Proof.
       (mul (ofZ (Z.of_nat (S n)))
            (sub (wdiv (dBfun kn true (S k) n i x) (sub (kn (i + Z.of_nat (S n))) (kn i)))
                 (wdiv (dBfun kn true (S k) n (i + 1) x) (sub (kn (i + Z.of_nat (S n) + 1)) (kn (i + 1)))))).
+    rewrite (wdiv_nz F _ _ N1), (wdiv_nz F _ _ N2). field. split; assumption.
+Qed.
+
+(* the left-continuous twins (used from the upper end of full support upwards) *)
+Lemma bspline_left_Bfun : forall n i, 0 <= i -> i + Z.of_nat n + 1 < nknots -> bspline_left kn n x i = Bfun kn false n i x.
+Proof.
+  induction n as [|n IH]; intros i Hi0 Hi1.
+  - reflexivity.
+  - cbn [bspline_left Bfun]. rewrite (IH i), (IH (i + 1)) by lia.
+    assert (N1 : sub (kn (i + Z.of_nat (S n))) (kn i) <> zero) by (apply strict_nz; lia).
+    assert (N2 : sub (kn (i + Z.of_nat (S n) + 1)) (kn (i + 1)) <> zero) by (apply strict_nz; lia).
+    rewrite (wdiv_nz F _ _ N1), (wdiv_nz F _ _ N2). field. split; assumption.
+Qed.
+
+Lemma bspline_deriv_left_dB : forall n i k, 0 <= i -> i + Z.of_nat n + 1 < nknots ->
+  bspline_deriv_left kn n x i (S k) = dBfun kn false (S k) n i x.
+Proof.
+  induction n as [|n IH]; intros i k Hi0 Hi1; [reflexivity|].
+  assert (N1 : sub (kn (i + Z.of_nat (S n))) (kn i) <> zero) by (apply strict_nz; lia).
+  assert (N2 : sub (kn (i + Z.of_nat (S n) + 1)) (kn (i + 1)) <> zero) by (apply strict_nz; lia).
+  destruct k as [|k].
+  - cbn [bspline_deriv_left dBfun]. rewrite (bspline_left_Bfun n i), (bspline_left_Bfun n (i + 1)) by lia.
+    rewrite (wdiv_nz F _ _ N1), (wdiv_nz F _ _ N2). field. split; assumption.
+  - change (bspline_deriv_left kn (S n) x i (S (S k))) with
+      (sub (div (mul (ofZ (Z.of_nat (S n))) (bspline_deriv_left kn n x i (S k))) (sub (kn (i + Z.of_nat (S n))) (kn i)))
+           (div (mul (ofZ (Z.of_nat (S n))) (bspline_deriv_left kn n x (i + 1) (S k))) (sub (kn (i + Z.of_nat (S n) + 1)) (kn (i + 1))))).
+    rewrite (IH i), (IH (i + 1)) by lia.
+    change (dBfun kn false (S (S k)) (S n) i x) with
+      (mul (ofZ (Z.of_nat (S n)))
+           (sub (wdiv (dBfun kn false (S k) n i x) (sub (kn (i + Z.of_nat (S n))) (kn i)))
+                (wdiv (dBfun kn false (S k) n (i + 1) x) (sub (kn (i + Z.of_nat (S n) + 1)) (kn (i + 1)))))).
     rewrite (wdiv_nz F _ _ N1), (wdiv_nz F _ _ N2). field. split; assumption.
 Qed.
 End Recursive.
